@@ -623,7 +623,7 @@ func legC09Parse(c *Ctx) {
 		}
 	}
 	c.Gate("parse: at least 40 capture maps compiled", len(envs) >= 40)
-	n := c.N(30000, 600000)
+	n := c.N(60000, 1000000)
 	var sawErr, sawEcmaPrefix, sawTen, sawName, sawEscName, sawSparse bool
 	for i := 0; i < n; i++ {
 		var cp *c09Compiled
@@ -720,10 +720,10 @@ func c09IsTimeout(err error) bool {
 }
 
 func legC09Replace(c *Ctx) {
-	c.Rule("generated patterns (literals, classes, numbered/named/explicitly numbered/balancing captures, optional groups, alternation, greedy and lazy loops, empty-matching a*, \\b, lookarounds; LeftToRight/RightToLeft, ECMAScript, IgnoreCase, ExplicitCapture) x inputs (ASCII, multi-byte, invalid UTF-8) x replacement strings from the $-grammar x startAt in [-3, len+2] bytes incl. non-rune-boundaries x count in {-3..5}; >= 24 calls with distinct replacement strings per Regexp; non-trivial = at least one match replaced and output != input (distinct by (options, pattern, replacement, input, startAt, count))")
-	nPat := c.N(700, 14000)
-	perPat := 24
-	var gRtlMulti, gBoundary, gTooLarge, gEmpty, gInvalid, gMulti, gBalancing, gCountCut, gFunc, gGroupRef bool
+	c.Rule("generated patterns (literals, classes, numbered/named/explicitly numbered/balancing captures, optional groups, alternation, greedy and lazy loops, empty-matching a*, \\b, lookarounds; LeftToRight/RightToLeft, ECMAScript, IgnoreCase, ExplicitCapture) x inputs (ASCII, multi-byte, invalid UTF-8) x replacement strings from the $-grammar x startAt in [-3, len+2] bytes incl. non-rune-boundaries x count in {-3..5}; >= 17 distinct replacement strings per Regexp (28 calls, old strings re-used after eviction); non-trivial = at least one match replaced and output != input (distinct by (options, pattern, replacement, input, startAt, count))")
+	nPat := c.N(1200, 20000)
+	perPat := 28
+	var gRtlMulti, gBoundary, gTooLarge, gEmpty, gInvalid, gMulti, gBalancing, gCountCut, gFunc, gGroupRef, gCache, gFuncErr bool
 	for pi := 0; pi < nPat; pi++ {
 		cp := c09GenCompiled(c.Rng)
 		c.Hist("programs")
@@ -736,6 +736,7 @@ func legC09Replace(c *Ctx) {
 			if len(history) > 17 && c.Rng.Chance(15) {
 				// an old replacement string again: evicted or still cached
 				rep, clean = Pick(c.Rng, history[:len(history)-16]), false
+				gCache = true
 			} else {
 				rep, toks = c09GenRep(c.Rng, cp, clean)
 				history = append(history, rep)
@@ -805,6 +806,33 @@ func legC09Replace(c *Ctx) {
 				}
 			}
 			c.Add(cs)
+			if clean && !c09IsPanic(err) {
+				// ReplaceFunc with an evaluator computing the same expansion gives the same string (or the same error)
+				ev := func(m regexp2.Match) string { return c09Expand(toks, runes, m) }
+				fout, ferr := c09SafeReplaceFunc(cp.re, input, ev, startAt, count)
+				if !c09IsTimeout(ferr) {
+					fc := &Case{Desc: "ReplaceFunc: " + desc + fmt.Sprintf(" -> %+q, %v", fout, ferr), Key: "f|" + key, ModelLeg: 903, ModelIn: modelIn,
+						ImplOut: c09ResString(fout, ferr), Nontrivial: ferr == nil && processed > 0 && fout != input, Class: "replacefunc"}
+					switch {
+					case c09IsPanic(ferr):
+						fc.Direct = "ReplaceFunc panicked: " + ferr.Error()
+						fc.ImplOut = []int64{2, 0}
+					case (ferr == nil) != (err == nil):
+						fc.Direct = fmt.Sprintf("ReplaceFunc returns (%+q, %v) where Replace returns (%+q, %v)", fout, ferr, out, err)
+					case ferr != nil && c09ErrCode(ferr) != c09ErrCode(err):
+						fc.Direct = fmt.Sprintf("ReplaceFunc fails with %v where Replace fails with %v", ferr, err)
+					case ferr == nil && fout != out:
+						fc.Direct = fmt.Sprintf("ReplaceFunc with the evaluator of the same expansion gives %+q; Replace gives %+q", fout, out)
+					}
+					if ferr == nil && processed > 0 {
+						gFunc = true
+					}
+					if ferr != nil {
+						gFuncErr = true
+					}
+					c.Add(fc)
+				}
+			}
 			if err != nil {
 				if err.Error() == "startAt must align to the start of a valid rune in the input string" {
 					gBoundary = true
@@ -838,22 +866,6 @@ func legC09Replace(c *Ctx) {
 			if strings.Contains(cp.pat, "-o>") && processed > 0 {
 				gBalancing = true
 			}
-			if clean {
-				// ReplaceFunc with an evaluator computing the same expansion gives the same string
-				ev := func(m regexp2.Match) string { return c09Expand(toks, runes, m) }
-				fout, ferr := c09SafeReplaceFunc(cp.re, input, ev, startAt, count)
-				fc := &Case{Desc: "ReplaceFunc: " + desc + fmt.Sprintf(" -> %+q, %v", fout, ferr), Key: "f|" + key, ModelLeg: 903, ModelIn: modelIn,
-					ImplOut: c09ResString(fout, ferr), Nontrivial: processed > 0 && fout != input, Class: "replacefunc"}
-				if c09IsPanic(ferr) {
-					fc.Direct = "ReplaceFunc panicked: " + ferr.Error()
-				} else if ferr != nil || fout != out {
-					fc.Direct = fmt.Sprintf("ReplaceFunc with the evaluator of the same expansion gives %+q, %v; Replace gives %+q", fout, ferr, out)
-				}
-				if processed > 0 {
-					gFunc = true
-				}
-				c.Add(fc)
-			}
 		}
 	}
 	c.Gate("replace: right-to-left, two or more matches, replacement with several rules", gRtlMulti)
@@ -865,6 +877,8 @@ func legC09Replace(c *Ctx) {
 	c.Gate("replace: balancing group pattern with a match", gBalancing)
 	c.Gate("replace: count smaller than the number of matches", gCountCut)
 	c.Gate("replace: ReplaceFunc with a match", gFunc)
+	c.Gate("replace: ReplaceFunc with a rejected count or startAt", gFuncErr)
+	c.Gate("replace: a replacement string used again after more than 16 other strings on the same Regexp", gCache)
 	c.Gate("replace: a participating capture group with a clean replacement", gGroupRef)
 }
 
@@ -889,7 +903,7 @@ func c09SafeSplit(re *regexp2.Regexp, input string, count int) (out []string, er
 
 func legC09Split(c *Ctx) {
 	c.Rule("the c09-replace pattern and input generators x count in {-3..5}: Split == model split == split_spec on the real match sequence; the pieces at positions 0, k+1, 2(k+1).. (k = number of groups) interleaved with the processed matches' texts rebuild the input; non-trivial = at least one match processed (distinct by (options, pattern, input, count))")
-	nPat := c.N(1200, 24000)
+	nPat := c.N(2500, 40000)
 	var gRtl2, gGroups, gEmpty, gCut, gUnmatched bool
 	for pi := 0; pi < nPat; pi++ {
 		cp := c09GenCompiled(c.Rng)
